@@ -66,6 +66,9 @@ var pipeGroupMessages = true
 // pipeAffiliation also runs the affiliation analyzer (interface implementations); off for the grammars without interfaces.
 var pipeAffiliation bool
 
+// pipeExclude is the -exclude-pkgs list the pipeline runs with (default: none; everything is included).
+var pipeExclude []string
+
 type pipeResult struct {
 	diags    []analysis.Diagnostic
 	fset     *token.FileSet
@@ -138,7 +141,7 @@ func pipeAnalysePkg(path, fileName, src string, deps []pipeDep) (res pipeResult,
 	if err != nil {
 		panic("generated source does not type-check: " + err.Error() + "\n" + src)
 	}
-	conf := config.VerifConfigGrouping([]string{""}, nil, pipeGroupMessages)
+	conf := config.VerifConfigGrouping([]string{""}, pipeExclude, pipeGroupMessages)
 	results := map[*analysis.Analyzer]interface{}{config.Analyzer: conf}
 	pass := &analysis.Pass{
 		Fset: fset, Files: []*ast.File{file}, Pkg: pkg, TypesInfo: info, TypesSizes: types.SizesFor("gc", "amd64"), ResultOf: results,
@@ -263,7 +266,7 @@ func pipeAnalysePkg(path, fileName, src string, deps []pipeDep) (res pipeResult,
 	return res, facts
 }
 
-var ndHarnesses = map[string]func(){"Harness_Pipe_Smoke": Harness_Pipe_Smoke, "Harness_P08": Harness_P08, "Harness_P01": Harness_P01, "Harness_P07": Harness_P07, "Harness_P01L": Harness_P01L, "Harness_P08_Ok": Harness_P08_Ok, "Harness_P01X": Harness_P01X, "Harness_P01R": Harness_P01R, "Harness_P13": Harness_P13, "Harness_P10": Harness_P10, "Harness_P09": Harness_P09, "Harness_P14": Harness_P14}
+var ndHarnesses = map[string]func(){"Harness_Pipe_Smoke": Harness_Pipe_Smoke, "Harness_P08": Harness_P08, "Harness_P01": Harness_P01, "Harness_P07": Harness_P07, "Harness_P01L": Harness_P01L, "Harness_P08_Ok": Harness_P08_Ok, "Harness_P01X": Harness_P01X, "Harness_P01R": Harness_P01R, "Harness_P13": Harness_P13, "Harness_P10": Harness_P10, "Harness_P09": Harness_P09, "Harness_P14": Harness_P14, "Harness_P12": Harness_P12}
 
 // Harness_Pipe_Smoke: two fixed programs, one with an unguarded dereference of a nil local, one guarded.
 func Harness_Pipe_Smoke() {
